@@ -448,7 +448,7 @@ theorem dispatch_reach {e : Editor D L} {ev : KeyEvent} {sh : Shared D L} {st : 
     the (conditional) auto-commit with a dirty dictionary flushed -/
 theorem tail_spec {sh : Shared D L} {st : St} {e' : Editor D L} {b : KB} (h : tail env sh st = .ok (e', b)) :
     e'.state = st ∧ b = e'.shared.last ∧
-    ∃ sh2, (if st == .entering && sh.last == .absorb then Shared.tryAutoCommit env sh else .ok sh) = .ok sh2 ∧
+    ∃ sh2, (if (st == .entering || st == .enteringSyllable) && sh.last == .absorb then Shared.tryAutoCommit env sh else .ok sh) = .ok sh2 ∧
       e'.shared = (if sh2.dirty > 0 then { sh2 with dict := env.reopenFlush sh2.dict, dirty := 0 } else sh2) := by
   unfold tail at h
   split at h
@@ -460,7 +460,7 @@ theorem tail_spec {sh : Shared D L} {st : St} {e' : Editor D L} {b : KB} (h : ta
     exact ⟨rfl, h2.symm, sh2, hq, rfl⟩
 
 theorem tail_com {sh : Shared D L} {st : St} {e' : Editor D L} {b : KB} (h : tail env sh st = .ok (e', b)) :
-    ∃ sh2, (if st == .entering && sh.last == .absorb then Shared.tryAutoCommit env sh else .ok sh) = .ok sh2 ∧
+    ∃ sh2, (if (st == .entering || st == .enteringSyllable) && sh.last == .absorb then Shared.tryAutoCommit env sh else .ok sh) = .ok sh2 ∧
       e'.shared.com = sh2.com ∧ e'.shared.options = sh2.options ∧ e'.shared.commitBuf = sh2.commitBuf ∧
       e'.shared.last = sh2.last ∧ e'.shared.syl = sh2.syl := by
   obtain ⟨_, _, sh2, h1, h2⟩ := tail_spec env h
@@ -1354,12 +1354,15 @@ end Linked
 /-! ## linked (round 2, `linkH`): the bound in EVERY reachable state
 
 `Props/C05Bound.lean` (namespace `Chewing.C05`, audited with this property; it needs C01's invariant, whose proofs
-import this file): `buffer_bounded_everywhere` — with exact lookup, thresholds `≤ B` and no list-closing API call over
-the simple engine's over-full one-word list, every history of valid operations returns and `len ≤ B` in every state,
-`≤ B + 1` while a candidate list is open (`bound_plus_one_attained`); `buffer_bounded_keys` (keys only: no side
-condition); `conversions_are_short` (inside a step at most `B + max 2 K` symbols are converted).  The unrestricted
-statement is refuted with concrete histories, both confirmed on the real C API: `fuzzy_unbounded_refuted` (prefix
-lookup: `EnteringSyllable`'s `Fuzzy` arm inserts without an auto-commit) and `cancel_unbounded_refuted`
-(`cancel_selecting` returns to `Entering` without an auto-commit). -/
+import this file), on the code repaired by `fix: the pre-edit length limit is enforced while a syllable is being
+entered` (FX3/FX4: the auto-commit now runs after every absorbed key that ends in `Entering` OR `EnteringSyllable`):
+`bounded_everywhere_full` / `buffer_bounded_all_operations` — thresholds `≤ B`, EVERY history of valid operations
+returns and `len ≤ B + 1` in every state, `≤ B` while a syllable is being entered; `buffer_bounded_everywhere` — without
+list-closing API calls over the simple engine's over-full one-word list `len ≤ B` in every state, `≤ B + 1` while a
+candidate list is open (`bound_plus_one_attained`); `buffer_bounded_keys` (keys only, every layout and lookup strategy:
+no side condition); `conversions_are_short` (inside a step at most `B + max 2 K` symbols are converted).  Before the
+repair the unrestricted statement was refuted two ways, both confirmed on the real C API; the witnesses are now
+`fuzzy_history_repaired` and `cancel_cycle_repaired`; `bounded_editing_full_refuted` records what is still false
+(limit + 1 symbols in `Entering` between the API call `cancel_selecting` and the next key). -/
 
 end Chewing.C05
